@@ -4,7 +4,7 @@ BASELINE_OFF = ("cd /repo && env -u LOKY_VERIF /venv/bin/python -m pytest -ra -q
 HOOKS = {"guard": "LOKY_VERIF", "enable": "LOKY_VERIF=1 in the environment of the checked process (no hook commit exists yet)",
          "baseline_off_cmd": BASELINE_OFF, "source_commits": [], "add_only": True}
 ENGINES = [
-    {"name": "E2", "path": "harness/e2.py", "serves_properties": ["C17"],
+    {"name": "E2", "path": "harness/e2.py", "serves_properties": ["C15", "C16", "C17"],
      "kind_free_text": "in-process differential: real function with substituted environment vs compiled Lean model driver, plus a statement-level oracle"},
 ]
 NOTES = ("Technique: machine-checked proof in Lean 4 over hand-written models, tied to /repo by a correspondence check "
@@ -13,6 +13,20 @@ NOTES = ("Technique: machine-checked proof in Lean 4 over hand-written models, t
 STD_NOTE = ("Trusted: Lean kernel + axioms propext/Classical.choice/Quot.sound (audited per theorem each run); the hand-written "
             "model as validated by the differential run; the harness's environment substitution. ")
 CLAIMS = {
+    "C16": {
+        "engine": "E2", "design_ref": "§5 C16", "drivers": ["wrapper_driver"],
+        "technique": "Lean 4 theorems over an algebraic model of the cloudpickle wrappers (reduce/rebuild with cloudpickle's round trip as a parameter) + differential correspondence against the real wrappers on generated objects",
+        "text": ("Theorems (every object, every stack of wrappers, both keep_wrapper values, any number of round trips): a pickle round trip of a wrapper is the code's __reduce__/_reconstruct_wrapper pair and yields rt(x) if not keep_wrapper else a fresh wrapper of rt(x) with the same flag; by induction wrapped for ever / unwrapped after the first trip (exactly the keep=True layers of a stack survive); callable iff the object is, calls forwarded, attribute reads forwarded for every name that is neither type-level nor _obj/_keep_wrapper; behaviour preserved after any number of trips given a behaviour-preserving cloudpickle; instances made through a wrapped class obey the same rules (full strength after fix 22b6807). Witness theorem for D12 (_obj/_keep_wrapper shadowed). "
+                 "Correspondence: 2*10^4 (quick) generated cases - lambdas, closures, nested, recursive, dynamic-__main__/unimportable-module functions, callable (own/inherited __call__) and non-callable instances, classes with positional/keyword constructor arguments, 1-2 wrapper layers, 0-3 plain-pickle round trips - layer kinds/flags, callable(), call results on 5 sample argument lists, attribute reads and the number of cloudpickle trips vs the compiled model; oracle from the statement compares every stage with the original object."),
+        "note": STD_NOTE + "Modelled, not verified: cloudpickle itself (parameter rt, hypothesis Faithful); call behaviour is one opaque token observed on sample arguments; type-level names (__class__, __doc__, ...) are outside 'attribute reads'; after arriving unwrapped further trips use cloudpickle; _wrap_objects_when_needed/WRAP_CACHE not covered. Known finding D12.",
+    },
+    "C15": {
+        "engine": "E2", "design_ref": "§5 C15", "drivers": ["pickle_driver"],
+        "technique": "Lean 4: heap-cell model of dispatch tables (copy vs alias explicit) with a frame theorem over API histories + reducer algebra with a whole-graph round-trip theorem; differential run against the real reduction/queues/executor code with registry snapshots",
+        "text": ("Part pickle - theorems (all registry contents, all reducer maps, all histories of set_loky_pickler / pickler creation / instance register / dumps / queue creation+put / executor creation, both back-ends): table of CustomizablePickler(reducers) = user over loky over (cloudpickle over) copyreg, built in a fresh dict; no history changes copyreg.dispatch_table, cloudpickle's table or loky's registry; a pickler's table depends only on the registries, the back-end at its creation and its own reducers; queues pickle with their own reducers; result_reducers=None means the job reducers; _reduce_partial/_reduce_method/_reduce_method_descriptor round-trip every well-formed graph of partials, bound methods, class methods and descriptors to itself. Correspondence: 2*10^4 (quick) cases on the real code - API histories with marker reducers installed in all three registries (every overlay order), observing the real pickler's table, the reducer actually used per probe instance and registry snapshots; loads(dumps(x)) structure and call-result behaviour for generated graphs through dumps and SimpleQueue, both back-ends. "
+                 "The clause 'the pickler selected when a task is submitted is the one its worker uses' is not decided yet (executor part pending; the pickler name is recorded at dispatch, DESIGN D9)."),
+        "note": STD_NOTE + "pickle/cloudpickle trusted (table consulted for the probe types); methods reachable under their __name__; a partial's instance __dict__ is outside the property; POSIX registry; executors are constructed with a fork context and no worker is started in this part.",
+    },
     "C17": {
         "engine": "E2", "design_ref": "§5 C17", "drivers": ["cpucount_driver"],
         "technique": "Lean 4 theorems over a model of cpu_count (closed formula, ≥1, physical-core cache automaton: at most one warning) + differential correspondence against the real function",
